@@ -783,6 +783,9 @@ func (r *runner) report(prop, tier string, hs []*HarnessCfg, wall, loadS float64
 		for _, m := range res.Inconclusive {
 			inconcl = append(inconcl, h.Name+": "+m)
 		}
+		if res.ReachSat == 0 {
+			inconcl = append(inconcl, h.Name+": no reachability witness was satisfiable (harness never reaches its end: vacuous)")
+		}
 		for id, ok := range res.reachIDs {
 			if !ok {
 				inconcl = append(inconcl, h.Name+": reachability witness "+id+" is not satisfiable in any case (vacuous harness)")
